@@ -91,7 +91,7 @@ type c35Scenario struct {
 	// Health object with this timeout; it reports Ready at start and then only
 	// when a health_flap op runs, so it repeatedly misses its timeout and is
 	// found dead by whoever asks first (a /alive probe or another subsystem's
-	// report) while three probers poll /alive tightly.
+	// report) while four probers poll /alive tightly.
 	FlakyHealthMs int `json:"flaky_health_ms,omitempty"`
 	// DroppedPerWorker / KeptPerWorker: SampleCache.DroppedSize / KeptSize per
 	// collector worker at start (0 = the large defaults 20000 / 1000 in total);
@@ -184,9 +184,9 @@ func genC35(t *rapid.T) c35Scenario {
 	n := rapid.IntRange(6, 10).Draw(t, "nactors")
 	if rapid.IntRange(0, 2).Draw(t, "flakyhealth") == 0 || os.Getenv("VERIF_C35_ONLY_FLAKY") != "" {
 		s.FlakyHealthMs = rapid.SampledFrom([]int{500, 1000}).Draw(t, "flakyms")
-		n = rapid.IntRange(9, 10).Draw(t, "nactorsfh")
-		if s.DurationMs < 2200 {
-			s.DurationMs = 2200
+		n = 10
+		if s.DurationMs < 3000 {
+			s.DurationMs = 3000 // room for 2-3 die/revive cycles
 		}
 	}
 	// the first actors get fixed profiles so that a scenario is non-trivial by
@@ -194,7 +194,7 @@ func genC35(t *rapid.T) c35Scenario {
 	for i := 0; i < n; i++ {
 		var profile int
 		switch {
-		case s.FlakyHealthMs > 0 && (i == 3 || i == 7 || i == 8):
+		case s.FlakyHealthMs > 0 && (i == 3 || i == 7 || i == 8 || i == 9):
 			profile = 5
 		case s.FlakyHealthMs > 0 && i == 6:
 			profile = 6
@@ -220,8 +220,8 @@ func genC35(t *rapid.T) c35Scenario {
 			case c35AlivePoll:
 				ops[k].ThinkUs = 0
 			case c35HealthFlap:
-				// stay silent for the timeout plus 1-3 health ticks
-				ops[k].ThinkUs = (s.FlakyHealthMs + 600 + 250*(ops[k].Arg%4)) * 1000
+				// stay silent for the timeout plus 0.3-0.75 s (the health ticker runs every 0.5 s)
+				ops[k].ThinkUs = (s.FlakyHealthMs + 300 + 150*(ops[k].Arg%4)) * 1000
 			}
 		}
 		if s.DropHeavy {
